@@ -332,6 +332,7 @@ func c14Grids(ev *evidence.Run, tier string) {
 			progs[n] = p
 		}
 		rep := map[[2]int]bool{}
+		dset := map[[2]int]map[string]bool{} // (N,T) -> positions+texts of the diagnostics
 		for _, t := range tvals {
 			restore := setParam(fam.checker, fam.param, t)
 			set, err := harness.NewSet(harness.Infos([]string{fam.checker}), "")
@@ -347,6 +348,11 @@ func c14Grids(ev *evidence.Run, tier string) {
 					continue
 				}
 				rep[[2]int{n, t}] = len(d) > 0
+				ds := map[string]bool{}
+				for _, x := range d {
+					ds[fmt.Sprintf("%d:%d", x.Line, x.Col)] = true
+				}
+				dset[[2]int{n, t}] = ds
 				if fam.pred != nil && (len(d) > 0) != fam.pred(n, t) {
 					ev.Violate(evidence.Violation{Key: fmt.Sprintf("%s.%s|boundary|reported=%v,documented=%v", fam.checker, fam.param, len(d) > 0, fam.pred(n, t)),
 						What:     fmt.Sprintf("%s: a construct measuring exactly N is not reported at the documented boundary (%s)", fam.checker, fam.doc),
@@ -358,6 +364,19 @@ func c14Grids(ev *evidence.Run, tier string) {
 		// monotonicity (all families) and unit-step flip point (undocumented units)
 		sort.Ints(nvals)
 		sort.Ints(tvals)
+		// set monotonicity: relaxing the threshold (larger T) never adds a diagnostic at any position
+		for _, n := range nvals {
+			for i := 1; i < len(tvals); i++ {
+				stricter, relaxed := dset[[2]int{n, tvals[i-1]}], dset[[2]int{n, tvals[i]}]
+				for pos := range relaxed {
+					if !stricter[pos] {
+						ev.Violate(evidence.Violation{Key: fmt.Sprintf("%s.%s|relaxing-adds-diagnostic", fam.checker, fam.param), What: "relaxing the threshold adds a diagnostic at a place that had none under the stricter value",
+							Observed: fmt.Sprintf("N=%d: diagnostic at %s with T=%d but not with T=%d\n%s", n, pos, tvals[i], tvals[i-1], fam.prog(n)),
+							Replay:   map[string]interface{}{"kind": "program", "files": map[string]string{"f.go": fam.prog(n)}, "path": "vpkg", "checker": fam.checker, "params": map[string]interface{}{fam.checker + "." + fam.param: tvals[i]}}})
+					}
+				}
+			}
+		}
 		for _, n := range nvals {
 			prev := true
 			flips := 0
